@@ -287,9 +287,20 @@ func (v *FnVC) mergeRets(rets []retInfo, res *types.Tuple) Val {
 	return cur
 }
 
+// idKey: the function part of obligation ids. A closure bound by what it is (parent@localVar, parent@emits:"literal")
+// keeps the identity of its obligations when closures are added, removed or nested differently around it
+// (parent$13 becoming parent$13$1).
+func (v *FnVC) idKey() string {
+	if con := v.w.Contracts.ByFunc[v.fn]; con != nil && strings.Contains(con.Key, "@") {
+		return con.Key
+	}
+	return FuncKey(v.fn)
+}
+
 func (v *FnVC) addObl(kind, text string, pos token.Pos, reach, cond Term, props []string, expect string) *Obligation {
 	fk := FuncKey(v.fn)
-	base := fmt.Sprintf("%s#%s:%s", fk, kind, text)
+	idk := v.idKey()
+	base := fmt.Sprintf("%s#%s:%s", idk, kind, text)
 	k := v.idCnt[base]
 	v.idCnt[base]++
 	o := &Obligation{ID: fmt.Sprintf("%s#%d", base, k), Kind: kind, Func: fk, Text: text, mark: v.sc.Mark(), reach: reach, cond: cond, sc: v.sc, Expect: expect}
@@ -1048,7 +1059,7 @@ func (v *FnVC) callMods(ci ssa.CallInstruction) *ModSet {
 }
 
 func invokeKey(c *ssa.CallCommon) string {
-	return typeKey(c.Value.Type()) + "." + c.Method.Name()
+	return typeKey(types.Unalias(c.Value.Type())) + "." + c.Method.Name()
 }
 
 func (v *FnVC) assignFams(con *Contract, ms *ModSet) {
@@ -1328,6 +1339,24 @@ func (v *FnVC) enterLoop(fr *frame, li *loopInfo, b *ssa.BasicBlock, st *State, 
 		}
 		for _, ins := range bb.Instrs {
 			if ci, ok := ins.(ssa.CallInstruction); ok {
+				if par, ok := ci.Common().Value.(*ssa.Parameter); ok && !ci.Common().IsInvoke() && ci.Common().StaticCallee() == nil {
+					// calls through a function-typed parameter are observed as well (called(p), errSeen(p), calls(p))
+					pk := "param:" + par.Name()
+					for _, g := range []string{"called#", "errSeen#"} {
+						old := st.ghostGet(g + pk)
+						n := v.sc.Fresh("ghost", SBool)
+						v.sc.Assert(Implies(old, n))
+						st.ghost[g+pk] = n
+					}
+					ck := "count#" + pk
+					old := tZero
+					if t, ok := st.ghost[ck]; ok {
+						old = t
+					}
+					n := v.sc.Fresh("ghostn", SInt)
+					v.sc.Assert(Le(old, n))
+					st.ghost[ck] = n
+				}
 				if cal := ci.Common().StaticCallee(); cal != nil {
 					for _, g := range []string{"called#", "errSeen#"} {
 						old := st.ghostGet(g + FuncKey(cal))
